@@ -2,6 +2,7 @@
    Only the property theorems; each is closed by [exact] of a lemma of Proofs*.v and followed by
    Print Assumptions.  rt_* = what Nelua emits for integer = int64 (Helpers.v over CSem.v in the
    dialect given by the scraped base flags); l* = Lua 5.4 (Base.LuaInt). *)
+From Coq Require Import Permutation.
 From C01 Require Import Model Order ProofsArith ProofsDiv ProofsShift ProofsMisc ProofsOrder ProofsFor ProofsOrdA ProofsOrdD ProofsMixed.
 Local Open Scope Z_scope.
 
@@ -147,7 +148,39 @@ Theorem C01_order_preserved_partial : forall fe e st o,
 Proof. exact order_preserved_partial. Qed.
 Print Assumptions C01_order_preserved_partial.
 
+(* ---- order of the values of a multi-variable declaration (VarDecl.v) ----
+   full statement: the values of `local v1, .., vn = e1, .., em` are evaluated left to right, as Lua does.
+   False today, twice: the initializer of a variable dropped by dead code elimination is written before the
+   definitions of the kept ones (`local a, b = f(), g()` with b never read runs g first), and the
+   `_asgnret = call` statement of a trailing multiple-return call likewise (`local a, b, c = f(), two()` runs
+   two first).  Both are known findings replayed on every run. *)
+Theorem C01_vardecl_order_refuted : ~ vardecl_order_src_full vardecl_policy.
+Proof. exact vardecl_order_refuted. Qed.
+Print Assumptions C01_vardecl_order_refuted.
+
+(* for every placement of the two kinds of statements: source order exactly when both go to defemitter
+   (the two proposed repairs) *)
+Theorem C01_vardecl_order_iff_policy : forall pol,
+  vardecl_order_src_full pol <-> (p_dead_in_def pol = true /\ p_asgnret_in_def pol = true).
+Proof. exact vd_src_iff. Qed.
+Print Assumptions C01_vardecl_order_iff_policy.
+
+(* what holds today, for every placement: every value is evaluated exactly once (the C order is a permutation
+   of the source order), and a declaration with at most one effectful value is in source order *)
+Theorem C01_vardecl_order_partial : forall pol nodce l,
+  Permutation (vd_effects pol nodce l) (src_effects l) /\
+  ((length (src_effects l) <= 1)%nat -> vd_effects pol nodce l = src_effects l).
+Proof. exact (fun pol nodce l => conj (vd_effects_perm pol nodce l) (vd_effects_single pol nodce l)). Qed.
+Print Assumptions C01_vardecl_order_partial.
+
 (* ---- core 4: precedence and associativity ---- *)
 Theorem C01_tables_agree : forall ts, climb nelua_table ts = climb lua_table ts.
 Proof. exact climb_tables_agree. Qed.
 Print Assumptions C01_tables_agree.
+
+(* tripwire for the scraped ladder: the facts about rule numbers the climb model relies on *)
+Theorem C01_ladder_facts :
+  (forall l, nelua_limit l <= nelua_unary_level) /\ nelua_unary_operand_level = nelua_unary_level /\
+  (forall o, 1 <= nelua_level o) /\ (forall o, nelua_level o < nelua_operand_level o \/ nelua_operand_level o <= nelua_level o).
+Proof. exact ladder_facts. Qed.
+Print Assumptions C01_ladder_facts.
